@@ -174,13 +174,17 @@ fn compile_adhoc_script(
         .get("version")
         .map(coercion::expr_into_number)
         .transpose()?
-        .map(|v| v as PlutusVersion)
+        .map(|v| PlutusVersion::try_from(v).unwrap_or(PlutusVersion::MAX))
         .unwrap_or(3);
-    let script_bytes = script.unwrap().to_vec();
+    let script_bytes = script
+        .ok_or(Error::MissingExpression("reference script".to_string()))?
+        .to_vec();
     let script_ref = match version {
         0 => {
             let decoded: pallas::codec::utils::KeepRaw<'_, primitives::NativeScript> =
-                minicbor::decode(&script_bytes).unwrap();
+                minicbor::decode(&script_bytes).map_err(|_| {
+                    Error::CoerceError(hex::encode(&script_bytes), "NativeScript".to_string())
+                })?;
             let owned_script = decoded.to_owned();
             primitives::ScriptRef::NativeScript(owned_script)
         }
